@@ -4,6 +4,7 @@
 package main
 
 import (
+	"context"
 	"encoding/json"
 	"fmt"
 	"math"
@@ -12,7 +13,10 @@ import (
 	"net/http"
 	"net/http/httptest"
 	"os"
+	"path/filepath"
+	"regexp"
 	"sort"
+	"strconv"
 	"strings"
 	"sync"
 	"time"
@@ -41,19 +45,31 @@ type c20op struct {
 	RemoteAddr string  `json:"remote_addr,omitempty"`
 	Remote     *string `json:"remote,omitempty"` // what ipFromRequest yields for RemoteAddr by construction (nil: error)
 	SleepMs    int     `json:"sleep_ms,omitempty"`
+	Path       string  `json:"path,omitempty"` // via_server: request path (/livesim2/…, /vod/…)
 }
 
 type c20in struct {
-	Kind      string   `json:"kind"`
-	Max       int64    `json:"max"`
-	Interval  int64    `json:"interval_ns"`
-	StartSec  int64    `json:"start_sec"`
-	StartNsec int64    `json:"start_nsec"`
-	WhiteList string   `json:"white_list"`
-	Ops       []c20op  `json:"ops,omitempty"`
-	Conc      *concIn  `json:"conc,omitempty"`
-	Race      bool     `json:"race,omitempty"` // replay: run the concurrent scenarios in the -race child
-	Scenarios []concIn `json:"scenarios,omitempty"`
+	Kind      string  `json:"kind"`
+	Max       int64   `json:"max"`
+	Interval  int64   `json:"interval_ns"`
+	StartSec  int64   `json:"start_sec"`
+	StartNsec int64   `json:"start_nsec"`
+	WhiteList string  `json:"white_list"`
+	Ops       []c20op `json:"ops,omitempty"`
+	// LogMode: "" no reqlimitlog; "ok" log file in an existing directory; "fault" the directory does
+	// not exist (every dump fails). Ops "logfault"/"logrestore" remove / recreate the directory.
+	LogMode string `json:"log_mode,omitempty"`
+	// ViaServer: the limiter is the one app.SetupServer wires into the router (maxrequests,
+	// reqlimitint seconds, whitelistblocks, reqlimitlog); "mw" ops are requests to Path through
+	// Server.Router, "count" ops are GET /reqcount.
+	ViaServer     bool  `json:"via_server,omitempty"`
+	ServerIntS    int   `json:"server_interval_s,omitempty"`
+	StartAfterSec int64 `json:"start_after_sec,omitempty"` // SetupServer returned at this instant (start_*: it was called)
+	StartAfterNs  int64 `json:"start_after_nsec,omitempty"`
+	scratch       string
+	Conc          *concIn  `json:"conc,omitempty"`
+	Race          bool     `json:"race,omitempty"` // replay: run the concurrent scenarios in the -race child
+	Scenarios     []concIn `json:"scenarios,omitempty"`
 }
 
 type c20obs struct {
@@ -98,6 +114,25 @@ func satSub(a, b *big.Int) *big.Int {
 
 const badIPBody = "could not read client IP"
 
+func isRealtime(in *c20in) bool { return in.Kind == "mw-realtime" || in.Kind == "server-realtime" }
+
+var serverVodOnce sync.Once
+var serverVodRoot string
+var serverVodErr error
+
+// serverVod: a vodroot with one small bundled asset (the server refuses to start without any).
+func serverVod() (string, error) {
+	serverVodOnce.Do(func() {
+		serverVodRoot, serverVodErr = os.MkdirTemp("", "c20vod")
+		if serverVodErr == nil {
+			serverVodErr = os.CopyFS(filepath.Join(serverVodRoot, "testpic_2s"), os.DirFS(filepath.Join(lib.TestVodRoot, "testpic_2s")))
+		}
+	})
+	return serverVodRoot, serverVodErr
+}
+
+var reqCountBodyRe = regexp.MustCompile(`^(-?\d+) \(max (-?\d+)\) until `)
+
 // runCase drives one limiter through the calls of a case.
 func runCase(in *c20in) ([]c20obs, error) {
 	start := time.Unix(in.StartSec, in.StartNsec)
@@ -105,9 +140,49 @@ func runCase(in *c20in) ([]c20obs, error) {
 		start = time.Now()
 		in.StartSec, in.StartNsec = start.Unix(), int64(start.Nanosecond())
 	}
-	il, err := app.NewIPRequestLimiter(int(in.Max), time.Duration(in.Interval), start, in.WhiteList, "")
-	if err != nil {
-		return nil, err
+	logFile, logDir := "", ""
+	if in.LogMode != "" {
+		if in.scratch == "" {
+			d, err := os.MkdirTemp("", "c20log")
+			if err != nil {
+				return nil, err
+			}
+			defer os.RemoveAll(d)
+			in.scratch = d
+		}
+		logDir = filepath.Join(in.scratch, "log")
+		logFile = filepath.Join(logDir, "reqlimit.json")
+		if in.LogMode == "ok" {
+			if err := os.MkdirAll(logDir, 0o755); err != nil {
+				return nil, err
+			}
+		}
+	}
+	var il *app.IPRequestLimiter
+	var srv *app.Server
+	if in.ViaServer {
+		root, err := serverVod()
+		if err != nil {
+			return nil, err
+		}
+		cfg := app.DefaultConfig
+		cfg.VodRoot, cfg.RepDataRoot, cfg.WriteRepData, cfg.TimeoutS, cfg.LogLevel = root, "", false, 0, "ERROR"
+		cfg.MaxRequests, cfg.ReqLimitInt, cfg.ReqLimitLog, cfg.WhiteListBlocks = int(in.Max), in.ServerIntS, logFile, in.WhiteList
+		before := time.Now()
+		srv, err = app.SetupServer(context.Background(), &cfg)
+		after := time.Now()
+		if err != nil {
+			return nil, err
+		}
+		in.Interval = int64(in.ServerIntS) * 1_000_000_000
+		in.StartSec, in.StartNsec = before.Unix(), int64(before.Nanosecond())
+		in.StartAfterSec, in.StartAfterNs = after.Unix(), int64(after.Nanosecond())
+	} else {
+		var err error
+		il, err = app.NewIPRequestLimiter(int(in.Max), time.Duration(in.Interval), start, in.WhiteList, logFile)
+		if err != nil {
+			return nil, err
+		}
 	}
 	mws := map[string]http.Handler{}
 	called := false
@@ -121,7 +196,25 @@ func runCase(in *c20in) ([]c20obs, error) {
 		case "inc":
 			nr, mx, ok := il.Inc(time.Unix(op.Sec, op.Nsec), op.IP)
 			obs[i] = c20obs{Nr: int64(nr), Mx: int64(mx), Ok: ok}
+		case "logfault":
+			_ = os.RemoveAll(logDir)
+			obs[i] = c20obs{Skipped: true}
+		case "logrestore":
+			_ = os.MkdirAll(logDir, 0o755)
+			obs[i] = c20obs{Skipped: true}
 		case "count":
+			if in.ViaServer {
+				req := httptest.NewRequest("GET", "/reqcount", nil)
+				req.Header.Set("X-Forwarded-For", op.IP)
+				rec := httptest.NewRecorder()
+				srv.Router.ServeHTTP(rec, req)
+				n := int64(-1)
+				if m := reqCountBodyRe.FindStringSubmatch(rec.Body.String()); m != nil {
+					n, _ = strconv.ParseInt(m[1], 10, 64)
+				}
+				obs[i] = c20obs{N: n}
+				continue
+			}
 			obs[i] = c20obs{N: int64(il.Count(op.IP))}
 		case "end":
 			obs[i] = c20obs{End: bigOfTime(il.EndTime())}
@@ -129,12 +222,19 @@ func runCase(in *c20in) ([]c20obs, error) {
 			time.Sleep(time.Duration(op.SleepMs) * time.Millisecond)
 			obs[i] = c20obs{Skipped: true}
 		case "mw":
-			h, ok := mws[op.HdrName]
-			if !ok {
-				h = app.NewLimiterMiddleware(op.HdrName, il)(next)
-				mws[op.HdrName] = h
+			var h http.Handler
+			path := "/x"
+			if in.ViaServer {
+				h, path = srv.Router, op.Path
+			} else {
+				var ok bool
+				h, ok = mws[op.HdrName]
+				if !ok {
+					h = app.NewLimiterMiddleware(op.HdrName, il)(next)
+					mws[op.HdrName] = h
+				}
 			}
-			req := httptest.NewRequest("GET", "/x", nil)
+			req := httptest.NewRequest("GET", path, nil)
 			req.RemoteAddr = op.RemoteAddr
 			if op.XFF != "" {
 				req.Header.Set("X-Forwarded-For", op.XFF)
@@ -152,6 +252,8 @@ func runCase(in *c20in) ([]c20obs, error) {
 				o.Cls = 1
 			case rec.Body.String() == badIPBody:
 				o.Cls = 0
+			case in.ViaServer:
+				o.Cls = 2 // passed on to the router's handler (whatever that answers)
 			default:
 				o.Cls = 9
 			}
@@ -212,7 +314,7 @@ func (s *spec) inc(now *big.Int, ip string) (k, mx int64, ok, reset bool) {
 // is time.Now(); the case kinds are built so that the reset decision does not depend on it).
 func modelNow(in *c20in, op c20op, o c20obs) *big.Int {
 	if op.Kind == "mw" {
-		if in.Kind == "mw-realtime" {
+		if isRealtime(in) {
 			return o.Before
 		}
 		return bigT(in.StartSec, in.StartNsec)
@@ -224,6 +326,9 @@ func modelNow(in *c20in, op c20op, o c20obs) *big.Int {
 // the same for every instant between "before" and "after" the call (otherwise the case is dropped).
 func realtimeUnambiguous(in *c20in, obs []c20obs) bool {
 	rb, ra := bigT(in.StartSec, in.StartNsec), bigT(in.StartSec, in.StartNsec)
+	if in.ViaServer {
+		ra = bigT(in.StartAfterSec, in.StartAfterNs) // the limiter's start lies between call and return of SetupServer
+	}
 	iv := big.NewInt(in.Interval)
 	for i, op := range in.Ops {
 		if op.Kind != "mw" {
@@ -329,7 +434,7 @@ func oracle(c *lib.Ctx, id string, in *c20in, obs []c20obs) (resets, rejects int
 			}
 		case "end":
 			want := new(big.Int).Add(s.reset, big.NewInt(in.Interval))
-			if in.Kind != "mw-always" && in.Kind != "mw-realtime" && o.End.Cmp(want) != 0 {
+			if in.Kind != "mw-always" && !isRealtime(in) && o.End.Cmp(want) != 0 {
 				c.Fail(id, "endtime", fmt.Sprintf("%s: EndTime()=%s ns, interval began at %s and lasts %d ns", where, o.End, s.reset, in.Interval), in)
 				return s.resets, s.rejects
 			}
@@ -379,7 +484,7 @@ func caseTerm(nm *interner, id int, in *c20in, obs []c20obs) string {
 			ips[op.IP] = true
 			ops = append(ops, fmt.Sprintf("CCount %s %s", nm.str(op.IP), lib.Zs(o.N)))
 		case "end":
-			if in.Kind == "mw-always" || in.Kind == "mw-realtime" {
+			if in.Kind == "mw-always" || isRealtime(in) {
 				continue // the reset instant is the middleware's own time.Now()
 			}
 			ops = append(ops, fmt.Sprintf("CEnd %s", zbig(o.End)))
@@ -435,7 +540,8 @@ func runC20(c *lib.Ctx) error {
 	errs := make([]error, len(ins))
 	var wg sync.WaitGroup
 	for i := range ins {
-		if ins[i].Kind == "mw-realtime" {
+		ins[i].scratch = filepath.Join(c.Out, "c20logs", fmt.Sprint(i))
+		if isRealtime(ins[i]) {
 			wg.Add(1)
 			go func(i int) {
 				defer wg.Done()
@@ -444,7 +550,7 @@ func runC20(c *lib.Ctx) error {
 		}
 	}
 	for i := range ins {
-		if ins[i].Kind != "mw-realtime" {
+		if !isRealtime(ins[i]) {
 			obsAll[i], errs[i] = runCase(ins[i])
 		}
 	}
@@ -471,14 +577,17 @@ func runC20(c *lib.Ctx) error {
 			c.Fail(id, "constructor", fmt.Sprintf("NewIPRequestLimiter accepted the malformed block list %q", in.WhiteList), in)
 			continue
 		}
-		if in.Kind == "mw-realtime" && !realtimeUnambiguous(in, obsAll[i]) {
+		if isRealtime(in) && !realtimeUnambiguous(in, obsAll[i]) {
 			c.Count("realtime-dropped-ambiguous-timing")
 			continue
 		}
 		c.Res.Inputs[id] = in
 		c.Count("case:" + in.Kind)
+		if in.LogMode != "" {
+			c.Count("reqlimitlog:" + in.LogMode)
+		}
 		for _, op := range in.Ops {
-			if op.Kind != "sleep" {
+			if op.Kind != "sleep" && op.Kind != "logfault" && op.Kind != "logrestore" {
 				c.Count("call:" + op.Kind)
 				nOps++
 			}
